@@ -26,7 +26,8 @@ What is proved (all fanouts, all numbers of targets, all fault vectors, all sche
   targets do;
 * `connect_deadline`, `command_deadline`, `interrupted_is_abandoned_now`, `unlimited_never_interrupted`;
 * `failed_reported` (command timeout; connect-time messages are the transport module's);
-* `terminates_with_timeouts` (both timeouts set: virtual time ≤ n·(ct+ut+2·WDOG_POLL) until dsh() returns)
+* `terminates_with_timeouts` (both timeouts set: virtual time ≤ n·(ct+ut+2·WDOG_POLL) until dsh() returns),
+  `terminates_no_hang_ut0` (no command timeout but no stream hangs: ≤ n·(ct+WDOG_POLL) + Σ scripted stream ends)
   and `never_stuck`.
 Not proved here: that dsh.c refines the LTS (trace correspondence of `checks/c07.py`); anything below
 the granularity "operations + blocking calls" (a SIGALRM that finds the worker between two xpoll calls
@@ -179,22 +180,46 @@ theorem failed_reported {v f c scripts} {s : St} (h : Reach v f c scripts s) {j 
 
 /-- TIMEOUTS BOUND THE RUN: with both timeouts set (and fanout ≥ 1), as long as dsh() has not returned the
     virtual clock is at most n · (connect_timeout + command_timeout + 2 · WDOG_POLL) — whatever the targets
-    do and however the threads are scheduled.  (The case "command_timeout = 0 but no target hangs after the
-    connect" of DESIGN's `terminates_with_timeouts` is not proved; the check exercises it.) -/
+    do and however the threads are scheduled. -/
 theorem terminates_with_timeouts {v f c scripts} {ls : List Label} {s : St} (he : Exec (init v f c scripts) ls s)
     (hf : 0 < f) (hct : 0 < c.ct) (hut : 0 < c.ut) (hnf : ¬ Final s) :
     s.now ≤ scripts.length * (c.ct + c.ut + 2 * WDOG_POLL) := by
-  have := (time_bounded he hf hct hut).2.2 hnf
-  have h2 : scripts.length * ((c.ct + WDOG_POLL) + (c.ut + WDOG_POLL)) = scripts.length * (c.ct + c.ut + 2 * WDOG_POLL) := by
-    congr 1; omega
-  omega
+  have := (time_bounded he hf hct (Or.inl hut)).2.2 hnf
+  have hsum : ∀ l : List Script, (l.map (budget c)).sum = l.length * (c.ct + c.ut + 2 * WDOG_POLL) := by
+    intro l; induction l with
+    | nil => simp
+    | cons x xs ih =>
+      simp only [List.map_cons, List.sum_cons, List.length_cons, ih, budget, readB, hut, if_true, Nat.succ_mul]
+      omega
+  rw [hsum] at this; omega
 
-/-- the timed system never gets stuck: in every state some operation other than a spurious wake-up is
+/-- THE REMAINING TERMINATION CASE: connect timeout set, NO command timeout, and no target whose polled
+    streams hang after the connect (every item arrives at a finite scripted instant, then EOF / error /
+    end of script).  Then, as long as dsh() has not returned, the virtual clock is at most
+    n · (connect_timeout + WDOG_POLL) + Σ over the targets of the scripted end of their streams — whatever
+    refuses, hangs in connect or dies, and however the threads are scheduled. -/
+theorem terminates_no_hang_ut0 {v f c scripts} {ls : List Label} {s : St} (he : Exec (init v f c scripts) ls s)
+    (hf : 0 < f) (hct : 0 < c.ct) (hut : c.ut = 0)
+    (hnh : ∀ j, j < scripts.length → NoHang c (scripts.getD j defaultScript)) (hnf : ¬ Final s) :
+    s.now ≤ scripts.length * (c.ct + WDOG_POLL) + (scripts.map (lastT c)).sum := by
+  have := (time_bounded he hf hct (Or.inr hnh)).2.2 hnf
+  have hsum : ∀ l : List Script,
+      (l.map (budget c)).sum = l.length * (c.ct + WDOG_POLL) + (l.map (lastT c)).sum := by
+    intro l; induction l with
+    | nil => simp
+    | cons x xs ih =>
+      simp only [List.map_cons, List.sum_cons, List.length_cons, ih, budget, readB, hut, Nat.lt_irrefl, if_false,
+        Nat.succ_mul]
+      omega
+  rw [hsum] at this; omega
+
+/-- the timed system never gets stuck: in every state before the return of dsh() some operation other than a spurious wake-up is
     possible — a thread can run, or (only then) a second passes.  With `terminates_with_timeouts`: seconds
     cannot pass for ever, so the run is driven to the return of dsh(). -/
-theorem never_stuck (s : St) : ∃ l, l.spurious = false ∧ (step s l).isSome = true := by
+theorem never_stuck (s : St) (hnf : ¬ Final s) : ∃ l, l.spurious = false ∧ (step s l).isSome = true := by
+  have hnr : s.fan.dpc ≠ .returned := hnf
   cases hq : quiescent s with
-  | true => exact ⟨.tick, rfl, by simp [step, hq]⟩
+  | true => exact ⟨.tick, rfl, by simp [step, hq, hnr]⟩
   | false =>
     have := hq
     simp only [quiescent, List.all_eq_false] at this
@@ -227,7 +252,7 @@ example :
        .fan (.w 1 .connectBegin), .fan (.w 1 .connectEnd), .fan (.w 1 .destroyBegin), .fan (.w 1 .destroyEnd),
        .fan (.w 1 .lock), .fan (.w 1 .signal), .fan (.w 1 .unlock), .fan (.d .lock), .fan (.d .unlock),
        .fan (.d .ret)]
-    (ls.foldlM (fun s l => step s l) (init .whileWait 1 { ct := 1, ut := 1, sopt := false, selfCheck := false } scripts)).map
+    (ls.foldlM (fun s l => step s l) (init .whileWait 1 { ct := 1, ut := 1, sopt := false, selfCheck := false, stopWdog := false } scripts)).map
       (fun s => (s.now, (s.host 0).res, (s.host 1).res, (s.host 1).out.got, s.fan.dpc)) =
       some (2, Res.connTimedOut, Res.done, 3, Fan.DPC.returned) := by
   decide
